@@ -360,9 +360,9 @@ isal_aes_xts_enc_256_expanded_key(
 
 int
 isal_aes_xts_dec_256(
-        const uint8_t *k2, //!<  key used for tweaking, 16 bytes
+        const uint8_t *k2, //!<  key used for tweaking, 16*2 bytes
         const uint8_t *k1, //!<  key used for decryption of tweaked ciphertext, 16*2 bytes
-        const uint8_t *initial_tweak, //!<  initial tweak value, 16*2 bytes
+        const uint8_t *initial_tweak, //!<  initial tweak value, 16 bytes
         const uint64_t len_bytes,     //!<  sector size, in bytes
         const void *in,               //!<  ciphertext sector input data
         void *out                     //!< plaintext sector output data
